@@ -350,6 +350,17 @@ def kw(call, name, pos=None):
     for k in call.keywords:
         if k.arg == name:
             return k.value
+        if k.arg is None:
+            # f(**{'name': v}) / f(**dict(name=v)) / f(**dict(kw, name=v)): the spread of a literal record sets the keyword
+            v = k.value
+            if isinstance(v, ast.Dict):
+                for dk, dv in zip(v.keys, v.values):
+                    if isinstance(dk, ast.Constant) and dk.value == name:
+                        return dv
+            elif isinstance(v, ast.Call) and isinstance(v.func, ast.Name) and v.func.id == "dict":
+                for k2 in v.keywords:
+                    if k2.arg == name:
+                        return k2.value
     if pos is not None and len(call.args) > pos and not any(isinstance(a, ast.Starred) for a in call.args[:pos + 1]):
         return call.args[pos]
     return None
